@@ -72,6 +72,19 @@ ckey(const struct cfg *c, const char *api)
     return k;
 }
 
+/* what the device hook does while an unchecked set is at work: a checked set, on the same table, of a value the
+ * register's constraint rejects */
+static RegisterValue nest_bad;
+static int nest_code, nest_calls;
+
+static void
+nested_checked_set(void)
+{
+    RegisterAccess a = register_set(&inst.t, 1, nest_bad);
+    nest_code = (int)a.code;
+    nest_calls++;
+}
+
 /* one typed value through checked set, get, unchecked set */
 static void
 one_value(const struct cfg *c, uint64_t bits)
@@ -124,6 +137,40 @@ one_value(const struct cfg *c, uint64_t bits)
                 rt_sync_model_from_storage(&inst);
             VH_COUNT("set refused by the device behind the callback");
         }
+    /* the unchecked variant skips the checks of ITS value, not those of the table: while its write is under way the
+     * device driver issues a checked set of its own, with a value the constraint rejects - that one is refused as
+     * ever, and the unchecked set stores its value (every 8th storable value behind a callback) */
+    if (c->custom && finite && (nset & 7u) == 3u && r->ck != REGV_TYPE_TRIVIAL) {
+        RegisterValueU bad = rt_from_bits(c->type, 0);
+        int have = 1;
+        if (r->ck == REGV_TYPE_MIN || (r->ck == REGV_TYPE_RANGE && (nset & 8u)))
+            bad = rt_neighbour(c->type, r->lo, -1);
+        else if (r->ck == REGV_TYPE_MAX || r->ck == REGV_TYPE_RANGE)
+            bad = rt_neighbour(c->type, r->hi, +1);
+        else if (r->ck == REGV_TYPE_CALLBACK)
+            bad = r->cbkind == RT_CB_EVEN ? rt_from_bits(c->type, 1) : (c->type == REG_TYPE_FLOAT32 ? (RegisterValueU){ .f32 = 100.5f } : (RegisterValueU){ .f64 = -1e3 });
+        if (!rt_bits_valid(c->type, rt_bits(c->type, bad)) || rt_satisfies(r, bad, 0))
+            have = 0;
+        if (have) {
+            nest_bad = (RegisterValue){ .type = (RegisterType)c->type, .value = bad };
+            nest_calls = 0;
+            nest_code = -1;
+            rt_cb_write_hook = nested_checked_set;
+            RegisterAccess a = register_set_unsafe(&inst.t, 1, v);
+            rt_cb_write_hook = NULL;
+            const char *key = ckey(c, "register_set_unsafe");
+            snprintf(ctx, sizeof ctx, "value bits %016" PRIx64 ", device hook sets bits %016" PRIx64, bits, rt_bits(c->type, bad));
+            VH_COUNT("checked set issued by the device hook while an unchecked set is at work");
+            if (nest_calls && nest_code == REG_ACCESS_SUCCESS)
+                vh_fail("nested-checked-set-accepted", key, "%s: the checked set of a value that violates the constraint returned success", ctx);
+            if (a.code != REG_ACCESS_SUCCESS)
+                vh_fail("set-refused", key, "%s: code=%d", ctx, a.code);
+            else
+                memcpy(mw, enc, rt_tsize[c->type] * 2);
+            if (!rt_compare_storage(&inst, "set-storage", key, ctx))
+                rt_sync_model_from_storage(&inst);
+        }
+    }
     for (int unsafe = 0; unsafe < 2; unsafe++) {
         int expect_ok = unsafe ? finite : accept;
         const unsigned vcalls = rt_val_calls, wcalls = inst.cb_writes;
